@@ -64,6 +64,13 @@ TEMPLATES = {
     "el_le_2": (lambda i, j: [_sb(".", "<=", "2")], lambda i, j: [S(".", "<=", "2")], False, False, "[.<=2] (integer term, float values)"),
     "at_le_f": (lambda i, j: [_sb("p", "<=", "1.5")], lambda i, j: [S("p", "<=", "1.5")], False, False, "[p<=1.5]"),
     "at_nge_f": (lambda i, j: [_sb("p", ">=", "2.5", True)], lambda i, j: [S("p", ">=", "2.5", True)], False, False, "[p!>=2.5]"),
+    "tx_sw": (lambda i, j: [_sb(".", "^", "a")], lambda i, j: [S(".", "^", "a")], False, False, "[.^a] (text)"),
+    "tx_ew": (lambda i, j: [_sb(".", "$", "b")], lambda i, j: [S(".", "$", "b")], False, False, "[.$b] (text)"),
+    "tx_has": (lambda i, j: [_sb(".", "%", "b")], lambda i, j: [S(".", "%", "b")], False, False, "[.%b] (text)"),
+    "tx_nhas": (lambda i, j: [_sb(".", "%", "a", True)], lambda i, j: [S(".", "%", "a", True)], False, False, "[.!%a] (text)"),
+    "tx_eq": (lambda i, j: [_sb(".", "=", "ab")], lambda i, j: [S(".", "=", "ab")], False, False, "[.=ab] (text)"),
+    "tx_lt": (lambda i, j: [_sb(".", "<", "b")], lambda i, j: [S(".", "<", "b")], False, False, "[.<b] (text)"),
+    "tx_ge": (lambda i, j: [_sb(".", ">=", "ab")], lambda i, j: [S(".", ">=", "ab")], False, False, "[.>=ab] (text)"),
     "el_sw": (lambda i, j: [_sb(".", "^", "-")], lambda i, j: [S(".", "^", "-")], False, False, "[.^-]"),
     "el_ew": (lambda i, j: [_sb(".", "$", "1")], lambda i, j: [S(".", "$", "1")], False, False, "[.$1]"),
     "el_has": (lambda i, j: [_sb(".", "%", "1")], lambda i, j: [S(".", "%", "1")], False, False, "[.%1]"),
@@ -212,6 +219,8 @@ HASH_T = ["p", "nope", "k1", "hslice", "hslice2", "key_sw", "key_neq", "key_gt",
           "star_p", "star_at", "deep", "deep_p", "self", "at_desc"]
 FLOATS = [("LFLT", t) for t in ("el_le_f", "el_ge_f", "el_nlt_f", "el_gt_f", "el_eq_f", "el_le_2", "el_gt", "el_le", "idx", "deep")] + \
          [("AOHF", t) for t in ("at_le_f", "at_nge_f", "at_gt", "at_le", "p", "p_el_gt")]
+TEXTS = [("LTXT", t) for t in ("tx_sw", "tx_ew", "tx_has", "tx_nhas", "tx_eq", "tx_lt", "tx_ge", "idx", "star")] + \
+        [("MTXT", t) for t in ("tx_sw", "tx_eq", "tx_lt", "key_sw", "star", "deep")]
 OTHER = [("LL", "idx_idx"), ("LL", "star_idx"), ("LL", "star"), ("LL", "deep"), ("LL", "idx"), ("LMIX", "idx"),
          ("LMIX", "p"), ("LMIX", "deep"), ("LMIX", "star"), ("LHASH", "p"), ("LHASH", "star_p"), ("LSTR", "idx"),
          ("LSTR", "deep"), ("SET", "p"), ("SET", "self"), ("SETI", "k1"), ("ROOTSCALAR", "self"), ("ROOTSCALAR", "el_gt"),
@@ -221,7 +230,8 @@ QUICK = [("L3", "idx"), ("ML3", "barekey"), ("ML4", "slice"), ("L3", "el_gt"), (
          ("AOHD", "at_desc"), ("AOH3", "at_gt_n"), ("AOH3", "idx_p"), ("AOHX", "star_p"), ("AOHD", "deep_p"),
          ("M3", "key_sw"), ("M3", "hslice"), ("MM", "at_gt"), ("MINT", "k1"), ("HOH", "star_at"), ("MM", "deep"),
          ("LL", "idx_idx"), ("LMIX", "p"), ("M3", "star"), ("SCAL", "el_gt"), ("AOHX", "p_el_gt"), ("MSTRNUM", "k1"),
-         ("AOH3", "slice_p"), ("LFLT", "el_le_f"), ("LFLT", "el_ge_f"), ("AOHF", "at_le_f"), ("AOHF", "at_nge_f")]
+         ("AOH3", "slice_p"), ("LFLT", "el_le_f"), ("LFLT", "el_ge_f"), ("AOHF", "at_le_f"), ("AOHF", "at_nge_f"),
+         ("LTXT", "tx_sw"), ("LTXT", "tx_lt"), ("LTXT", "tx_nhas")]
 
 
 def _mk(shape, template, tier):
@@ -265,7 +275,7 @@ def pairs(tier):
         out += [(s, t) for t in AOH_T]
     for s in HASHES:
         out += [(s, t) for t in HASH_T]
-    out += OTHER + FLOATS
+    out += OTHER + FLOATS + TEXTS
     seen, uniq = set(), []
     for p in out + QUICK:
         if p not in seen:
